@@ -4,6 +4,7 @@ package classifier
 
 import (
 	"bytes"
+	"math"
 	"encoding/json"
 	"fmt"
 	"os"
@@ -32,7 +33,9 @@ var c10Syms = []struct{ name, text string }{
 	{"U+0130", "\u0130"}, {"&#304;", "&#304;"}, {"KELVIN", "\u212a"}, {":", ":"}, {"U+1E9E", "\u1e9e"},
 }
 
-var c10Thresholds = []float64{0, 0.01, 0.5, 0.8, 0.999, 1}
+// thresholds incl. the extremes of the float range next to 0 and 1 (q = T/(1-T) becomes
+// astronomically large just below 1)
+var c10Thresholds = []float64{0, math.SmallestNonzeroFloat64, 0.01, 0.5, 0.8, 0.999, 1 - 1e-13, math.Nextafter(1, 0), 1}
 
 func c10Corpus(shape int, t float64) *Classifier {
 	cl := NewClassifier(t)
@@ -60,6 +63,9 @@ func c10Total(c *vrep.Ctx) {
 	ts := c10Thresholds
 	if shape == 4 {
 		ts = []float64{0, 0.8, 1}
+	}
+	if shape == 3 && !c.Thorough() {
+		ts = []float64{0, 0.5, 0.8, 1 - 1e-13, math.Nextafter(1, 0), 1} // quick tier: six of the nine
 	}
 	cls := make([]*Classifier, len(ts))
 	for i, t := range ts {
